@@ -43,31 +43,62 @@ def isInherited (key : String) : Bool := Gen.InheritedC07.inherited.contains key
 /-- `key[:2] == '__'`: a custom property. -/
 def isCustom (key : String) : Bool := startsWith key "__"
 
-/-- `ComputedStyle.__missing__(key)` up to the computer function. `hasParent` = `parent_style is not None`. -/
+/-- `ComputedStyle.__missing__(key)` up to the computer function. `hasParent` = `parent_style is not None`.
+Order of the tests as in the source (since `fix:` 582f36b the root test for 'inherit' comes *after* the pending
+value is solved). -/
 def select {β : Type} (key : String) (hasParent : Bool) (c : Casc β) : R (Sel β) :=
   -- value / pending from the cascade, else 'inherit' or 'initial'
   let start : Casc β :=
     match c with
     | .absent => if isInherited key || isCustom key then .inheritKw else .initialKw
     | c => c
-  -- `if value == 'inherit' and parent_style is None: value = 'initial'`
-  let start : Casc β :=
+  -- `if pending:` … `value = value.solve(solved_tokens, original_key)`; `except InvalidValues:` the parent's
+  -- computed value (inherited property with a parent) or the initial value, stored at once
+  let solved : Casc β ⊕ Sel β :=
     match start with
-    | .inheritKw => if hasParent then .inheritKw else .initialKw
-    | c => c
-  match start with
-  | .absent => pure .initial            -- unreachable
-  | .initialKw => pure .initial
-  | .inheritKw => pure .parent
-  | .value v => pure (.specified v)
-  | .pending s =>
-    match s with
-    | .valid v => pure (.specified v)
+    | .pending (.valid v) => .inl (.value v)
+    | .pending .inheritKw => .inl .inheritKw
+    | .pending .initialKw => .inl .initialKw
+    | .pending .invalid => .inr (if isInherited key && hasParent then .parent else .initial)
+    | c => .inl c
+  match solved with
+  | .inr sel => pure sel
+  | .inl value =>
+    -- `if value == 'inherit' and parent_style is None: value = 'initial'`
+    let value : Casc β :=
+      match value with
+      | .inheritKw => if hasParent then .inheritKw else .initialKw
+      | c => c
+    match value with
     | .initialKw => pure .initial
-    | .inheritKw =>
-      -- `elif value == 'inherit': parent_style[key]` — the root test above came too early
-      if hasParent then pure .parent else throw .typeError
-    | .invalid =>
-      if isInherited key && hasParent then pure .parent else pure .initial
+    | .inheritKw => pure .parent          -- `parent_style[key]`: a parent exists here
+    | .value v => pure (.specified v)
+    | .absent => pure .initial            -- unreachable
+    | .pending _ => pure .initial         -- unreachable
+
+/-! ### `Pending.solve`: one object per declaration, shared by every element (and longhand) it applies to -/
+
+/-- One call of `Pending.solve(tokens, wanted_key)` (weasyprint/css/utils.py) on an object whose
+`_reported_error` flag is `reported`: the outcome, the flag afterwards, and whether a warning was logged. -/
+structure SolveOut (β : Type) where
+  result : R β
+  reported : Bool
+  warned : Bool
+
+/-- `noTokens`: `not tokens` (substitution left nothing); `validate`: what `self.validate(tokens, wanted_key)`
+does on these tokens (evaluated only when there are tokens).  Only `InvalidValues` is caught; it is logged the
+first time (`_reported_error`), and raised again every time. -/
+def solve {β : Type} (reported noTokens : Bool) (validate : R β) : SolveOut β :=
+  let r : R β := if noTokens then .error .invalid else validate
+  match r with
+  | .error .invalid => { result := .error .invalid, reported := true, warned := !reported }
+  | r => { result := r, reported := reported, warned := false }
+
+/-- The successive calls on one `Pending` object (one per element the rule matches, per longhand), from a flag. -/
+def solveSeq {β : Type} : Bool → List (Bool × R β) → List (SolveOut β)
+  | _, [] => []
+  | reported, (nt, v) :: rest =>
+    let o := solve reported nt v
+    o :: solveSeq o.reported rest
 
 end Wp.Pending
